@@ -356,17 +356,26 @@ func randomParams(rng *rand.Rand) string {
 var ttSizes = []int{32000, 32000, 1 << 20, 1 << 20, 16 << 20, 32, 64, 32}
 
 // sweep: every hard node budget 0..K on a root (each k is one abort point), plus the other limit kinds
-func (r *rec) sweep(corpus []string, K int) {
+func (r *rec) sweep(corpus []string, K int) { r.sweepModes(corpus, K, false) }
+
+// sweepModes with limitsOnly: only the mixed-limit traces, half of the requests pondering with a hard budget
+func (r *rec) sweepModes(corpus []string, K int, limitsOnly bool) {
 	eng := 0
 	for !r.full() {
 		fen, prefix, b := r.rootWithPrefix(corpus)
 		r.t++
 		randomParams(r.rng)
 		tt := ttSizes[r.rng.Intn(len(ttSizes))]
+		if limitsOnly && tt < 32000 {
+			tt = 32000
+		}
 		s := search.New(tt)
 		eng++
 		fresh := true
 		mode := r.rng.Intn(3)
+		if limitsOnly {
+			mode = 1
+		}
 		var reqs []request
 		switch mode {
 		case 0:
@@ -378,7 +387,11 @@ func (r *rec) sweep(corpus []string, K int) {
 		case 1:
 			for i := 0; i < 12; i++ {
 				rq := request{depth: 1 + r.rng.Intn(5), hard: -1, soft: -1, stop: "none"}
-				switch r.rng.Intn(8) {
+				kind := r.rng.Intn(8)
+				if limitsOnly && r.rng.Intn(2) == 0 {
+					kind = 5
+				}
+				switch kind {
 				case 6:
 					rq.softTime = int64(1 + r.rng.Intn(4))
 					rq.depth = 40
@@ -388,6 +401,9 @@ func (r *rec) sweep(corpus []string, K int) {
 					d1 := r.rng.Intn(4)
 					rq.depth = 1 + r.rng.Intn(3)
 					rq.hard = r.rng.Intn(3000)
+					if r.rng.Intn(2) == 0 {
+						rq.hard = r.rng.Intn(60) // a budget the ponder phase alone outruns
+					}
 					rq.ponderHit = fmt.Sprintf("depth%d", d1)
 					if r.rng.Intn(3) == 0 {
 						rq.ponderHit = "never"
@@ -766,6 +782,8 @@ func main() {
 	}()
 	corpus := gen.LoadCorpus(*corpusPath)
 	switch *mode {
+	case "limits":
+		r.sweepModes(corpus, *k, true)
 	case "sweep":
 		r.sweep(corpus, *k)
 	case "pv":
